@@ -370,10 +370,17 @@ Qed.
 (* What these links leave as explicit modelling steps (nothing is assumed as an axiom; these are the
    places where two models are put side by side rather than derived from one transition system):
    - L2/L3: the composed engine operates on the ABSTRACT stream, one atomic step per Next / Left.
-     For the real tree this is exact under sequential callers (L2_tree_is_counter); for concurrent
-     callers it is the linearised object whose existence C02_conc_flat / L1_profile_conc prove.
-     The substitution of a linearizable object for its atomic specification inside a client
-     (Herlihy & Wing) is not mechanised (the same gap as C02_conc_nested_partial).
+     For the real tree this is exact under sequential callers (L2_tree_is_counter).  For
+     concurrent instances the substitution of the real (nested, non-atomic) schedule for that
+     atomic specification inside the engine is mechanised in Properties/Links_conc.v
+     (Proofs/LinkConc*.v): the joint system "instance sections x nested schedule sections"
+     (Model/SchedNested.v, shared tree of composites of any depth) is simulated by the engine of
+     L2/L3 (LC_joint_simulation), so its terminal C03 state is reachable in the C03 model and the
+     C03 theorems and L2_conservation_profile hold of it (LC_joint_terminal, LC_joint_accounting,
+     LC_joint_profile); rps-per-instance = solo runs (LC_per_instance_solo).  (The instance of the
+     same question inside C02, formerly C02_conc_nested_partial, is closed by C02_conc_nested.)
+     Left as modelling decisions there: those of the nested schedule model (design/C02.md), and
+     that the world of a Wait call is fixed in the step in which its Next returns.
    - L3: the worlds of Wait are restricted by [world_ok]: monotone clock, timers never early
      (C04's wf_call), no cancellation (cancellation is not in the C03 model; C05 covers it).
    - L5: the three models share numbers and result classes through explicit hypotheses of the
